@@ -583,7 +583,8 @@ func (c *Context) Respond(rw http.ResponseWriter, r *http.Request, produces []st
 			return
 		}
 		producers := c.api.ProducersFor(normalizeOffers(offers))
-		prod, ok := producers[format]
+		// producers are keyed by the media type without parameters, see above
+		prod, ok := producers[normalizeOffer(format)]
 		if !ok {
 			panic(errors.New(http.StatusInternalServerError, cantFindProducer(format)))
 		}
@@ -600,7 +601,8 @@ func (c *Context) Respond(rw http.ResponseWriter, r *http.Request, produces []st
 		}
 
 		producers := route.Producers
-		prod, ok := producers[format]
+		// producers are keyed by the media type without parameters, see above
+		prod, ok := producers[normalizeOffer(format)]
 		if !ok {
 			if !ok {
 				prods := c.api.ProducersFor(normalizeOffers([]string{c.api.DefaultProduces()}))
